@@ -7,6 +7,7 @@ import (
 	"os"
 	"os/exec"
 	"path/filepath"
+	"regexp"
 	"runtime"
 	"sort"
 	"strings"
@@ -25,11 +26,11 @@ func init() {
 // scenarios: a deterministic function of (seed, index)
 
 type c01Scenario struct {
-	kind   string
-	files  map[string]string // workspace
-	open   string            // file to open and sweep
-	edits  []string          // successive full texts sent as didChange (unsaved partial edits)
-	class  string            // finding class the scenario is built to probe ("" = none)
+	kind  string
+	files map[string]string // workspace
+	open  string            // file to open and sweep
+	edits []string          // successive full texts sent as didChange (unsaved partial edits)
+	class string            // finding class the scenario is built to probe ("" = none)
 }
 
 var c01Methods = []string{"textDocument/hover", "textDocument/definition", "textDocument/references", "textDocument/completion",
@@ -131,7 +132,10 @@ func genC01Scenario(seed int64, idx int) c01Scenario {
 		sc.files["main.lua"] += "---@class CyA : CyB\n---@field a number\n---@class CyB : CyA\n---@field b number\n---@type CyA\nlocal cya = { zzz = 1 }\n---@type CyB\nlocal cyb = {}\nprint(cya.zzz, cyb.yyy)\n" +
 			"---@param p CyA\nlocal function cyf(p) print(p.zzz) end\nprint(cyf)\n" +
 			"---@type " + c0.name + "\n" + c0.name + "tab = {}\nfunction " + c0.name + "tab:" + f0 + "(p) return p end\nfunction " + c0.name + "tab." + f0 + "(q) return q end\n"
-		switch r.Intn(6) { // half of these scenarios stay in client-settings mode
+		// a call, inside a function body, of a global function of which only SOME parameters are annotated (the call-argument
+		// type check, switched on by a configuration file only, loads the annotated types under a package mutex)
+		sc.files["main.lua"] += "---@param count number\nfunction addz(count, label)\n  return count, label\nend\nfunction mainz()\n  addz(1, \"x\")\n  addz(\"oops\", \"y\")\nend\n"
+		switch (idx / 9) % 6 { // half of these scenarios stay in client-settings mode (a fixed rotation: every tier meets every case)
 		case 0:
 			sc.files["luahelper.json"] = "{\"OpenErrorTypes\":[22,23,24,25,26,27,28,29]}"
 		case 1:
@@ -146,11 +150,11 @@ func genC01Scenario(seed int64, idx int) c01Scenario {
 			"BaseDir": "./", "ShowWarnFlag": r.Intn(2), "ReferMatchPathFlag": r.Intn(2), "PathSeparator": []string{".", "/", "", "::"}[r.Intn(4)],
 			"IgnoreModules": []string{"hive", "("}, "IgnoreFileOrFloder": []string{"tmp/", "[", "*.lua"},
 			"ReferFrameFiles": []map[string]interface{}{{"Name": names[r.Intn(len(names))], "Type": r.Intn(3), "SuffixFlag": r.Intn(2)}},
-			"ProtocolVars": []string{"s2s", "a.b"}, "IgnoreErrorTypes": []int{r.Intn(30), -1},
-			"ProjectFiles": []string{"main.lua", "nope.lua"},
-			"IgnoreFileErr":      []string{[]string{"tmp/", "[", "a(b", "*x"}[r.Intn(4)]},
-			"IgnoreFileErrTypes": []map[string]interface{}{{"File": []string{"main.lua", "m(", "+"}[r.Intn(3)], "Types": []int{1, 2}}},
-			"IgnoreFileVars":     []map[string]interface{}{{"File": "main.lua", "Vars": []string{"x", "("}}},
+			"ProtocolVars":    []string{"s2s", "a.b"}, "IgnoreErrorTypes": []int{r.Intn(30), -1},
+			"ProjectFiles":         []string{"main.lua", "nope.lua"},
+			"IgnoreFileErr":        []string{[]string{"tmp/", "[", "a(b", "*x"}[r.Intn(4)]},
+			"IgnoreFileErrTypes":   []map[string]interface{}{{"File": []string{"main.lua", "m(", "+"}[r.Intn(3)], "Types": []int{1, 2}}},
+			"IgnoreFileVars":       []map[string]interface{}{{"File": "main.lua", "Vars": []string{"x", "("}}},
 			"IgnoreLocalNoUseVars": []string{"_", "["},
 		}
 		b, _ := json.Marshal(cfg)
@@ -212,7 +216,10 @@ func genC01Scenario(seed int64, idx int) c01Scenario {
 	case 8: // more files than worker goroutines (NumCPU+2): every dispatch loop has to refill its workers
 		sc.kind = "many-files"
 		nf := runtime.NumCPU() + 3 + r.Intn(30)
-		sc.files["main.lua"] = "gvar = 1\nfunction gfun(a) return a end\nGT = { k = 1 }\nprint(gvar, gfun(2), GT.k)\n"
+		sc.files["main.lua"] = "gvar = 1\nfunction gfun(a) return a end\nGT = { k = 1 }\nprint(gvar, gfun(2), GT.k)\n" +
+			// symbols longer than the 63 / 127 byte limits of the workspace-symbol matcher (queried by name in the sweep)
+			"function player_inventory_synchronisation_manager_refresh_all_slots_and_notify_client_observers(slot)\n  return slot\nend\n" +
+			strings.Repeat("very_", 30) + "long_global = 1\n"
 		for i := 0; i < nf; i++ {
 			sc.files[fmt.Sprintf("f%02d.lua", i)] = fmt.Sprintf("print(gvar, gfun(%d), GT.k)\nlocal function l%d() return gvar end\nprint(l%d)\n", i, i, i)
 		}
@@ -241,6 +248,8 @@ func genC01Scenario(seed int64, idx int) c01Scenario {
 	}
 	return sc
 }
+
+var c01LongIdent = regexp.MustCompile(`[A-Za-z_][A-Za-z0-9_]{40,}`)
 
 // runScenario drives the real server; any panic kills this (child) process — that is the point.
 func runC01Scenario(sc c01Scenario, idx int, res *lib.Result) {
@@ -347,9 +356,26 @@ func runC01Scenario(sc c01Scenario, idx int, res *lib.Result) {
 				return false
 			}
 		}
-		if _, err := sess.Call("workspace/symbol", map[string]interface{}{"query": "a"}); err != nil && strings.Contains(err.Error(), "TIMEOUT") {
-			fmt.Printf("HANG %d workspace/symbol: %v\n", idx, err)
-			return false
+		// workspace/symbol: a short query, the empty one, and every long identifier of the text (whole and cut at the limits of
+		// the matcher's tables: 63 / 64 / 65 / 127 / 128 bytes)
+		queries := []string{"a", ""}
+		for k, id := range c01LongIdent.FindAllString(t, -1) {
+			if k >= 3 {
+				break
+			}
+			queries = append(queries, id)
+			for _, n := range []int{63, 64, 65, 127, 128} {
+				if len(id) > n {
+					queries = append(queries, id[:n])
+				}
+			}
+		}
+		for _, q := range queries {
+			lib.Breadcrumb(fmt.Sprintf("C01 scenario %d (%s): workspace/symbol with the %d-byte query %q", idx, sc.kind, len(q), q))
+			if _, err := sess.Call("workspace/symbol", map[string]interface{}{"query": q}); err != nil && strings.Contains(err.Error(), "TIMEOUT") {
+				fmt.Printf("HANG %d workspace/symbol: %v\n", idx, err)
+				return false
+			}
 		}
 		return true
 	}
